@@ -269,6 +269,26 @@ def run(ctx, tier):
             ctx.violation("result-handed-out-by-reference:" + _name(fn).split(".")[-1], function=_name(fn), args=repr(a)[:300],
                           recorded=want[:300], after_the_caller_edited_the_previous_result=again[:300], monitor="replay", case=None)
     ctx.hit("replay_after_caller_edited_result", nm_)
+    # phase 1r: the caller is deep in its own stack (a recursive parser, a tree walker, a lowered recursion limit) and leaves the
+    # decoder 80 frames of headroom - plenty for code whose call depth does not grow with the length of the message
+    nr = 0
+    lim = sys.getrecursionlimit()
+    depth = 0
+    fr_ = sys._getframe()
+    while fr_ is not None:
+        depth += 1
+        fr_ = fr_.f_back
+    descend = lim - depth - 80 - 6
+    if descend > 50:
+        for i in order[:1500]:
+            fn, a, k, want = rec[i]
+            got = repr(_deep(descend, lambda: probe.call(fn, *_copy(a), **_copy(k))))
+            nr += 1
+            ctx.ev()
+            if got != want:
+                ctx.violation("result-depends-on-stack-depth-of-the-caller:" + _name(fn).split(".")[-1], function=_name(fn), args=repr(a)[:300],
+                              recorded=want[:300], with_80_frames_of_headroom=got[:300], monitor="replay", case=None)
+    ctx.hit("replay_from_a_deep_stack", nr)
     # phase 1i: a flag argument is judged by its truth value: numpy.bool_ (an element of a comparison such as (dfs == 17)[i])
     # and the ints 0 / 1 mean what False / True mean (`if flag is True:` only knows the two singletons)
     nf = 0
@@ -398,7 +418,7 @@ def _cold(ctx, tier, rec, rng):
         return
     rng.shuffle(ser)
     ser = ser[:400]
-    runs = int(os.environ.get("PMV_COLD_RUNS", "2" if tier == "quick" else "24"))
+    runs = int(os.environ.get("PMV_COLD_RUNS", "3" if tier == "quick" else "24"))
     fd, path = tempfile.mkstemp(prefix="pmv-cold-", suffix=".pkl")
     try:
         with os.fdopen(fd, "wb") as f:
@@ -438,6 +458,10 @@ def _cold(ctx, tier, rec, rng):
             os.remove(path)
         except OSError:
             pass
+
+
+def _deep(k, thunk):
+    return thunk() if k <= 0 else _deep(k - 1, thunk)
 
 
 def _ishex(x):
